@@ -60,7 +60,7 @@ def build():
                   ("T-CLOSURE", r"move \|n: &str, url: &str\| \{\s*encode_kid\(", "move |n: &str, url: &str| -> (jws__: Result<String, Error>)\n"
                    "    ensures jws__ matches Ok(s__) ==> kid_builder_ok(s__@, &account_owned, endpoint_name@, crate::utf8_bytes(acc_up_struct@), url@, n@) //@C04.contact_update_is_signed_by_the_current_key_with_the_account_url,C11.contact_update_is_signed_by_the_current_key_with_the_account_url\n{\n\t\t\tencode_kid(")],
         at=[("before_stmt", "let data_builder", 1, "let ghost ao__ = account_owned;"),
-            ("before_stmt_re", r"account\.update_contacts_hash\(", 1, """
+            ("opt:before_stmt_re", r"account\.update_contacts_hash\(", 1, """
     proof {
         // the stored fingerprint of the contacts the CA holds is refreshed only once the CA has taken the update
         assert(w.ca_contacts == crate::account::contacts_fp(account.contacts@)); //@C11.stored_contacts_fingerprint_never_runs_ahead_of_the_ca
@@ -69,7 +69,7 @@ def build():
         rewrites=[("T-CLOSURE", r"\|n: &str, url: &str\| \{\s*encode_kid\(", "|n: &str, url: &str| -> (jws__: Result<String, Error>)\n"
                    "    ensures jws__ matches Ok(s__) ==> kid_request(s__@, *old_key, account_url@, crate::utf8_bytes(rollover_payload@), url@, n@) && signed_with(s__@, old_alg0__) //@C04.key_change_outer_jws_is_signed_by_the_old_key,C11.key_change_outer_jws_is_signed_by_the_old_key\n{\n\t\tencode_kid(")],
         at=[("before_stmt", "let data_builder", 1, "let ghost old_alg0__ = old_account_key.signature_algorithm;"),
-            ("before_stmt_re", r"account\.update_key_hash\(", 1, """
+            ("opt:before_stmt_re", r"account\.update_key_hash\(", 1, """
     proof {
         // the stored fingerprint of the key the CA holds is refreshed only once the CA has taken the new key: it never runs ahead of a
         // roll-over the CA has not accepted (the next requests would be signed by a key the CA does not know)
